@@ -247,6 +247,9 @@ structure Params where
   mapTable : List ((TT × TT) × MapRoutine)
   mapDefault : MapRoutine
   mapBinaryGuard : Bool
+  /-- decoder.go: every `T_binary` test of the string decoders looks through a pointer node
+      (`*[]byte` fields), so that the slot is written as a `[]byte` and not as a `string` -/
+  binarySeesThroughPtr : Bool
   deriving Repr, Inhabited
 
 namespace Params
